@@ -70,6 +70,11 @@ def removeLast (ns : Namespace) : Namespace :=
   | none => ns
   | some last => { names := ns.names.dropLast, mapNames := ns.mapNames.map (fun m => setDelete m last) }
 
+/-- `func (ns *objectNamespace) reset()`: lengths to zero and `mapNames = nil` (the capacity trimming is not
+observable).  `objectNamespaceStack.push` calls it when it reuses the slot of an earlier sibling object, and the
+coders call it between top-level values. -/
+def reset (_ns : Namespace) : Namespace := empty
+
 /-- `mapNames != nil` (hook `UsesMap`). -/
 def usesMap (ns : Namespace) : Bool := ns.mapNames.isSome
 
@@ -77,9 +82,10 @@ def usesMap (ns : Namespace) : Bool := ns.mapNames.isSome
 inductive Op where
   | ins (name : Bytes)
   | rm
+  | reset
 deriving Repr, DecidableEq
 
-/-- Runs a history; the result of each `ins` is recorded (`rm` records nothing). -/
+/-- Runs a history; the result of each `ins` is recorded (`rm` and `reset` record nothing). -/
 def run : Namespace → List Op → Namespace × List Bool
   | ns, [] => (ns, [])
   | ns, .ins x :: ops =>
@@ -87,6 +93,7 @@ def run : Namespace → List Op → Namespace × List Bool
     let rest := run r.1 ops
     (rest.1, r.2 :: rest.2)
   | ns, .rm :: ops => run ns.removeLast ops
+  | ns, .reset :: ops => run ns.reset ops
 
 end Namespace
 
